@@ -33,6 +33,7 @@ extern "C"
     void verif_obj(const void* self, int event, const void* other, usize size);
     void verif_freeze();
     void verif_thaw();
+    void verif_freeze_allocs();
     void verif_thaw_obj(const void* p);
     void verif_reach(int id);
     void verif_observe(u64 x);
